@@ -102,7 +102,7 @@ func (w *worker) postMortem() (what, site string) {
 		} else if what == "out of memory" {
 			// which allocation fails is arbitrary; what keeps allocating is not:
 			// the cog function that occurs most often on the stack (a runaway
-			// recursion), else the outermost cog function of the failing call
+			// recursion), else the innermost cog function of the failing call
 			site = dominantSite(block)
 		} else {
 			site = siteOf(cogFrames(block, false))
@@ -159,6 +159,27 @@ func (p *pool) exec(w *worker, c *Case) ([]Out, string) {
 			return []Out{{St: "hang", Err: "no answer within " + p.timeout.String(), Site: "?"}}, ""
 		}
 		what, site := w.postMortem()
+		if subs := splitLanguages(c); len(subs) > 1 {
+			// a run over several output languages died: one language took the
+			// process down and hid what the others do. Run them one by one.
+			var outs []Out
+			for _, sub := range subs {
+				o, _ := p.exec(w, sub.c)
+				for i := range o {
+					if o[i].Lang == "" || o[i].Lang == "-" {
+						o[i].Lang = sub.lang
+					}
+				}
+				outs = append(outs, o...)
+			}
+			for _, o := range outs {
+				if o.St == "fatal" || o.St == "hang" {
+					return outs, ""
+				}
+			}
+			// no single language dies: the death belongs to the run as a whole
+			return append(outs, Out{St: "fatal", Err: what, Site: site}), ""
+		}
 		if c.Req.Op == "ir" {
 			if parts := splitStage(c.Req.Stage); len(parts) > 0 {
 				// a grouped request died: run its stages one by one so that the
@@ -193,6 +214,46 @@ func (p *pool) exec(w *worker, c *Case) ([]Out, string) {
 		}
 	}
 	return resp.Outs, resp.Hash
+}
+
+var reLanguageEntry = regexp.MustCompile(`(?m)^    - (\w+): \{.*\}\n`)
+
+type languageCase struct {
+	lang string
+	c    *Case
+}
+
+// splitLanguages derives, from a configuration case whose pipeline lists
+// several output languages (one `    - <language>: {...}` line each, as every
+// pipeline generated by this harness does), one case per language.
+func splitLanguages(c *Case) []languageCase {
+	if c.Req.Op != "config" {
+		return nil
+	}
+	pipeline := c.Req.Files["pipeline.yaml"]
+	entries := reLanguageEntry.FindAllStringSubmatch(pipeline, -1)
+	if len(entries) < 2 {
+		return nil
+	}
+	var out []languageCase
+	for i := range entries {
+		n := -1
+		filtered := reLanguageEntry.ReplaceAllStringFunc(pipeline, func(line string) string {
+			n++
+			if n == i {
+				return line
+			}
+			return ""
+		})
+		sub := *c
+		sub.Req.Files = map[string]string{}
+		for k, v := range c.Req.Files {
+			sub.Req.Files[k] = v
+		}
+		sub.Req.Files["pipeline.yaml"] = filtered
+		out = append(out, languageCase{lang: entries[i][1], c: &sub})
+	}
+	return out
 }
 
 // single runs one case in a fresh worker (isolation for confirmation runs).
